@@ -49,6 +49,7 @@ public:
     :   TriggeredEventHandler(Stage::Position), kind(kind), level(level), mb(mb) {}
     Real getValue(const State& s) const override {
         if (kind == 0) return s.getTime() - level;
+        if (kind == 2) return std::cos(4.3*s.getTime() + level);     // many crossings
         return mb.getOneQ(s, MobilizerQIndex(0)) - level;
     }
     void handleEvent(State&, Real, bool&) const override {}
@@ -142,11 +143,19 @@ static bool doCall(Integrator& integ, const System& system, Real report, Real sc
         if (s.getNQErr()) qe = s.getQErr().normRMS();
         if (s.getNUErr()) ue = s.getUErr().normRMS();
     } catch (...) { qe = ue = NaN; }
+    // the advanced state: what integration resumes from and what an event handler is given
+    Real aqe = 0, aue = 0;
+    try {
+        const State& a = integ.getAdvancedState();
+        system.realize(a, Stage::Velocity);
+        if (a.getNQErr()) aqe = a.getQErr().normRMS();
+        if (a.getNUErr()) aue = a.getUErr().normRMS();
+    } catch (...) { aqe = aue = NaN; }
     Vec2 w(NaN, NaN);
     if (st == Integrator::ReachedEventTrigger) w = integ.getEventWindow();
-    printf("RET %s %a %a %d %a %a %a %a %a %d\n", stName(st), integ.getTime(), integ.getAdvancedTime(),
+    printf("RET %s %a %a %d %a %a %a %a %a %d %a %a\n", stName(st), integ.getTime(), integ.getAdvancedTime(),
            (int)integ.isSimulationOver(), w[0], w[1], qe, ue, integ.getConstraintToleranceInUse(),
-           (int)integ.isStateInterpolated());
+           (int)integ.isStateInterpolated(), aqe, aue);
     return true;
 }
 
@@ -170,11 +179,12 @@ int main(int argc, char** argv) {
         // witness functions
         int nw = 0;
         if (mode == "wwin") { S.system.addEventHandler(new Witness(0, 0.61803, *S.p1)); nw = 1; }
-        else if (mode == "rand" && R.p(0.5)) {
+        else if ((mode == "rand" && R.p(0.5)) || (mode == "c21" && R.p(0.75))) {
             nw = 1 + R.k(2);
             for (int i = 0; i < nw; ++i) {
                 int wk = (sysKind == 0 || R.p(0.5)) ? 0 : 1;
-                Real level = wk == 0 ? 0.05 + 1.5*R.u() : -0.5 + 1.5*R.u();
+                if (mode == "c21" && R.p(0.5)) wk = 2;
+                Real level = wk == 0 ? 0.05 + 1.5*R.u() : wk == 2 ? R.u() : -0.5 + 1.5*R.u();
                 const MobilizedBody& mb = sysKind == 0 ? (const MobilizedBody&)*S.sl : (const MobilizedBody&)*S.p1;
                 S.system.addEventHandler(new Witness(wk, level, mb));
             }
@@ -192,8 +202,10 @@ int main(int argc, char** argv) {
         s.setTime(tStart);
         const Real fixedStep = 0.004 + 0.02*R.u();
         std::unique_ptr<Integrator> integ(makeInteg(kind, S.system, fixedStep));
-        const Real acc = (mode == "c21") ? (R.p(0.5) ? 1e-3 : 1e-5) : (mode == "wc21") ? std::pow(10.0, -3 - 2*((script/2) % 3)) : (mode == "wmin") ? 1e-8 : 1e-3;
+        const Real acc = (mode == "c21") ? (R.p(0.3) ? 1e-2 : R.p(0.5) ? 1e-3 : 1e-5) : (mode == "wc21") ? std::pow(10.0, -3 - 2*((script/2) % 3)) : (mode == "wmin") ? 1e-8 : 1e-3;
         integ->setAccuracy(acc);
+        Real ctol = -1;
+        if (mode == "c21" && R.p(0.5)) { ctol = R.p(0.5) ? 1e-6 : 1e-7; integ->setConstraintTolerance(ctol); }
         // options
         Real tFinal = -1; bool allowInterp = true, everyStep = false, projInterp = true; int limit = -1;
         if (mode == "rand" || mode == "c21") {
@@ -201,11 +213,14 @@ int main(int argc, char** argv) {
             if (R.p(0.3)) allowInterp = false;
             if (R.p(0.25)) everyStep = true;
             if (R.p(0.25)) limit = 1 + R.k(4);
-            if (R.p(0.3)) projInterp = false;
+            if (R.p(mode == "c21" ? 0.5 : 0.3)) projInterp = false;
             if (kind != 6 && kind != 8) {
                 int o = R.k(5);
-                if (o == 0) integ->setFixedStepSize(fixedStep);
-                else if (o == 1) { integ->setMinimumStepSize(0.002); integ->setMaximumStepSize(0.05); }
+                // (no fixed/minimum step size in c21 mode: a step size that cannot shrink makes the integrators accept
+                //  unprojected steps, which is the known finding with its own witness, mode wmin)
+                if (o == 0 && mode != "c21") integ->setFixedStepSize(fixedStep);
+                else if (o == 1 && mode != "c21") { integ->setMinimumStepSize(0.002); integ->setMaximumStepSize(0.05); }
+                else if (o == 1) integ->setMaximumStepSize(0.05);
                 else if (o == 2) integ->setInitialStepSize(0.001 + 0.1*R.u());
             }
         }
@@ -215,9 +230,9 @@ int main(int argc, char** argv) {
         if (everyStep) integ->setReturnEveryInternalStep(true);
         if (limit > 0) integ->setInternalStepLimit(limit);
         if (!projInterp) integ->setProjectInterpolatedStates(false);
-        printf("SCRIPT %d %s kind=%d sys=%d nw=%d final=%a allowInterp=%d everyStep=%d limit=%d projInterp=%d tStart=%a acc=%a mode=%s\n",
+        printf("SCRIPT %d %s kind=%d sys=%d nw=%d final=%a allowInterp=%d everyStep=%d limit=%d projInterp=%d tStart=%a acc=%a ctol=%a mode=%s\n",
                script, kindName[kind], kind, sysKind, nw, tFinal, (int)allowInterp, (int)everyStep, limit, (int)projInterp,
-               tStart, acc, mode.c_str());
+               tStart, acc, ctol, mode.c_str());
         try { integ->initialize(s); }
         catch (const std::exception& e) { printf("INITFAIL\nEND\n"); continue; }
         const Real fin = tFinal > 0 ? tFinal : Infinity;
